@@ -53,12 +53,14 @@ var appendMu sync.RWMutex
 func (fs DirFs) Append(f File, data []byte) {
 	appendMu.Lock()
 	defer appendMu.Unlock()
-	n, err := unix.Write(f.fd(), data)
-	if err != nil {
-		panic(err)
-	}
-	if n < len(data) {
-		panic(fmt.Errorf("short write: %d < %d bytes", n, len(data)))
+	// One write may take less than it was given (Linux moves at most
+	// 0x7ffff000 bytes per call); that is not a failure, the rest follows.
+	for len(data) > 0 {
+		n, err := unix.Write(f.fd(), data)
+		if err != nil {
+			panic(err)
+		}
+		data = data[n:]
 	}
 }
 
